@@ -8,6 +8,8 @@
 //! probability (write_all of std has to cope).  Output:
 //!   R <sink hex|-> <nflush> <sink length after each explicit flush>* <T|F hex: sink == concat of to_string()> <N|T|F: read back>
 //! or P when the writer panicked.
+// make_output_macro_! calls itself by its bare name, so it has to be in scope at the call site
+use rlib_io::make_output_macro_;
 use rlib_io::reader::Reader;
 use rlib_io::writer::{Writable, Writer};
 use std::cell::RefCell;
